@@ -96,6 +96,14 @@ func (x *seqExec) absorbKnownCollision() bool {
 	if v == nil || x.opKey < 0 || x.opKey >= len(x.m.Keys) || !x.m.Keys[x.opKey].Collide {
 		return false
 	}
+	if x.plan.Extra["benignCollide"] == 1 {
+		// no recorded finding can act in a benign collision world (see genSeqPlan)
+		if !strings.HasPrefix(v.Sub, "collide-benign:") {
+			v.Sub = "collide-benign:" + v.Sub
+		}
+		x.out.probe("benign-collision-world-violation")
+		return false
+	}
 	if !strings.HasPrefix(v.Sub, "collide:") {
 		v.Sub = "collide:" + v.Sub
 	}
